@@ -17,6 +17,7 @@ RULE = ('(a) direct streams: the real MomentumSignal / SMASignal / VolatilitySig
         'that day\'s close from the CSV, first observation at the first close at or after universe entry, final values '
         'equal the definitions. Non-trivial: a stream longer than its largest lookback (direct) / a session with a late '
         'entrant or >= 20 updates; distinct = case signature.')
+RULE += ' 15% of the sessions read two data sources (composite oracle).'
 ASSUMPTIONS = ['momentum/SMA 1e-9 relative; volatility 1e-9 relative (+1e-12 absolute)',
                'a session that raises the documented NaN-price ValueError is checked up to that instant']
 ALPHAS = ('topn_mom', 'sma_trend', 'inv_vol', 'mom_sign')
